@@ -17,8 +17,8 @@ __CPROVER_assigns(rec_cb_ctx, rec_cb_actions)
 #endif
 __CPROVER_frees(eav->result)
 #ifdef EAV_EXTRA
-__CPROVER_frees(eav->result->lpart, eav->result->domain)
-__CPROVER_assigns(eav->result->lpart, eav->result->domain)
+__CPROVER_frees(eav->result != NULL: eav->result->lpart, eav->result->domain)
+__CPROVER_assigns(eav->result != NULL: eav->result->lpart, eav->result->domain)
 #endif
 /* C01/C13: exactly the callback of the confirmed mode runs, once, on (email, length, tld_check) */
 __CPROVER_ensures(rec_cb_calls == 1 && rec_cb_email == email && rec_cb_len == length && rec_cb_tld == eav->tld_check && eav->result == rec_cb_result)
